@@ -36,7 +36,7 @@ var (
 	journal  *os.File
 )
 
-var universe = []string{"d/x", "d/y/z", "ad/x", "d-old", "d.x", "d0", "d", "D/x", "a d/x", "a+b/x", "a(b", "a.b/x", "axb/x", "é/x", "x", "dd/x"}
+var universe = []string{"d/x", "d/y/z", "ad/x", "d-old", "d.x", "d0", "d", "D/x", "a d/x", "a+b/x", "a(b", "a.b/x", "axb/x", "é/x", "x", "dd/x", strings.Repeat("L", 100) + "/" + strings.Repeat("M", 100) + "/" + strings.Repeat("N", 98)}
 
 var queries []string
 
